@@ -124,8 +124,11 @@ def build(job):
     for k in ('boolean_attributes', 'implicit_i18n_attributes'):
         if k in kw:
             kw[k] = set(kw[k])
+    body = job['body']
+    if job.get('as_bytes'):
+        body = body.encode(job['as_bytes'])       # the same document handed over as bytes
     try:
-        t = cls(job['body'], **kw)
+        t = cls(body, **kw)
         out = t(v=1, lst=[1, 2], translate=lambda m, **k: '[%s]' % m)
         if isinstance(out, bytes):
             out = out.decode('utf-8')
